@@ -287,7 +287,7 @@ func init() {
 		ID: "C14",
 		Explanation: "Decides structural necessary conditions of 'output only uses syntax available in the target': R1 every construction of a newer-syntax node outside the parse pass (nullish/logical-assignment/exponent operators, optional chains, templates, arrows, let/const/using, bigint, spread, async/generator, for-of) is dominated by a test that the matching compat.JSFeature bit is not unsupported — in the function itself, in every caller, through a gate wrapper, or preserves an existing node of the same kind — or is a reviewed entry; R2 markSyntaxFeature reports on every path on which the feature is unsupported and every JSFeature constant is consulted by some gate; R3 the feature tables are complete and `supported` overrides are applied in both directions wherever options are built; R4 the embedded runtime text only uses newer syntax inside feature-conditional branches. NOT covered: that each lowering emits only older syntax in the JS text of runtime helpers beyond the lexical check; engine-version table values.",
 		Run: func(p *Prog, tier string) []*RuleResult {
-			return []*RuleResult{c14IntroduceGate(p), c14DiagnoseOrLower(p), c14Tables(p), c14RuntimeText(p)}
+			return []*RuleResult{c14IntroduceGate(p), c14DiagnoseOrLower(p), c14Tables(p), c14RuntimeText(p), c14RuntimeFeatures(p)}
 		},
 	})
 }
@@ -663,6 +663,58 @@ func c14RuntimeText(p *Prog) *RuleResult {
 	r.Note("runtime text segments: %d", len(segs))
 	if r.Instances < 3 {
 		r.Fail("C14/R4 positive-control", "-", "fewer than 3 guarded unlowerable constructs found in the runtime text (for-of and accessors exist today): the lexer went blind")
+	}
+	return r
+}
+
+
+// R5: the runtime library is parsed and selected for exactly the build's unsupported-feature set.
+func c14RuntimeFeatures(p *Prog) *RuleResult {
+	r := NewRule("C14/R5 runtime-feature-set", "the runtime library is lowered for the build's full unsupported-feature set: the runtime cache key takes options.UnsupportedJSFeatures unmodified (no masking or narrowing) and the scanner asks for the runtime with the build's own options")
+	fn := p.FindFunc("bundler.(*runtimeCache).parseRuntime")
+	if !r.Anchor("bundler.(*runtimeCache).parseRuntime", fn != nil) {
+		return r
+	}
+	found := false
+	eachInstr(fn, func(b *ssa.BasicBlock, in ssa.Instruction) {
+		st, ok := in.(*ssa.Store)
+		if !ok {
+			return
+		}
+		fa, ok := st.Addr.(*ssa.FieldAddr)
+		if !ok || namedTypeName(fa.X.Type()) != "bundler.runtimeCacheKey" || fieldAddrName(fa) != "unsupportedJSFeatures" {
+			return
+		}
+		found = true
+		r.Instances++
+		o, n, isF := loadedField(st.Val)
+		if isF && n == "UnsupportedJSFeatures" && o == "config.Options" {
+			r.OK("runtime cache key features", true, "key.unsupportedJSFeatures = options.UnsupportedJSFeatures, unmodified")
+		} else {
+			r.Fail("runtime cache key features", p.Pos(st.Pos()), "the runtime is parsed and lowered for "+ssaExpr(st.Val, 0)+" instead of the build's full unsupported-feature set: helper code can keep syntax the target lacks (a mask must list every feature the runtime text uses, which nothing checks)")
+		}
+	})
+	if !found {
+		r.Fail("runtime cache key features", p.Pos(fn.Pos()), "store to runtimeCacheKey.unsupportedJSFeatures not found")
+	}
+	// callers pass the scanner's/bundle's own options
+	if n := p.CallGraph().Nodes[fn]; n != nil {
+		for _, e := range n.In {
+			r.Instances++
+			key := FuncName(e.Caller.Func) + " parseRuntime(options)"
+			arg := e.Site.Common().Args[1]
+			if al, ok := arg.(*ssa.Alloc); ok && namedTypeName(al.Type()) == "config.Options" {
+				r.OK(key, true, "called with the build's options value")
+			} else if _, fname, ok := loadedField(arg); ok && fname == "options" {
+				r.OK(key, true, "called with the build's options")
+			} else if fa, ok := arg.(*ssa.FieldAddr); ok && fieldAddrName(fa) == "options" {
+				r.OK(key, true, "called with the build's options")
+			} else if fv, ok := arg.(*ssa.FreeVar); ok && fv.Name() == "options" && namedTypeName(fv.Type()) == "config.Options" {
+				r.OK(key, true, "called with the enclosing function's options variable")
+			} else {
+				r.Fail(key, p.Pos(e.Site.Pos()), "parseRuntime is called with "+ssaExpr(arg, 0)+", not the build's options")
+			}
+		}
 	}
 	return r
 }
